@@ -56,6 +56,9 @@ bool build_check(const std::string& prop, const std::string& tier, CheckSpec& s,
             s.batches.push_back(mk("sample", q ? 100 : 4000, ALL, "single", {}, "samplers, hashing, target-group operations under ASan+UBSan"));
             s.batches.push_back(mk("wkd", q ? 200 : 8000, ALL, "single", {{"focus", 0}}, "every API call sequence of the WKD-IBE properties under ASan+UBSan"));
             s.batches.push_back(mk("enc", q ? 100 : 4000, ALL, "single", {}, "point decode of damaged bytes under ASan+UBSan"));
+            s.batches.push_back(mk("pairs", q ? 120 : 4000, ALL, "single", {}, "pairing products over exact-size pair-record arrays and prepared points under ASan+UBSan"));
+            s.batches.push_back(mk("group", q ? 60 : 3000, ALL, "single", {}, "group and target-group API under ASan+UBSan"));
+            s.batches.push_back(mk("lq", q ? 60 : 3000, ALL, "single", {}, "LQ-IBE histories on every replica under ASan+UBSan"));
         }
         return true;
     }
